@@ -518,6 +518,46 @@ def shard(ctx):
                                       {"kind": "pair", "a": "".join(l for l in lines if l.startswith("rule a%s " % tag)),
                                        "b": head + "".join(l for l in lines if l.startswith("rule %s%s " % (pfx, tag))), "data": kdocs,
                                        "map": {pfx + tag: "a" + tag}})
+    # ---- built-in functions of a literal: the literal passed as an argument of a parameterised rule whose body applies the function to the
+    #      parameter, the same literal written in place, and the literal bound with `let` (rule and file level) agree
+    if ctx.mine(6):
+        FN = [("count(%s)", ['"prod"', "[80, 443]", "5", '{"a": 1}', "[]", '["a"]', "true"], ["== 0", "== 1", "== 2", ">= 1"]),
+              ("to_upper(%s)", ['"prod"', '"Mixed"', '["a", "b"]'], ['== "PROD"', '== "MIXED"', "exists", "is_string"]),
+              ("to_lower(%s)", ['"PROD"', '"Mixed"'], ['== "prod"', '== "mixed"', "is_string"]),
+              ('join(%s, ",")', ['["a", "b"]', '"a"', '["a"]', "[]"], ['== "a,b"', '== "a"', "exists", "is_string", 'empty']),
+              ('regex_replace(%s, "a", "b")', ['"banana"', '"x"'], ['== "bbnbnb"', '== "x"', "is_string"]),
+              ("substring(%s, 0, 2)", ['"banana"', '"b"'], ['== "ba"', "exists", "is_string"]),
+              ("parse_int(%s)", ['"12"', "12", '"x"', "1.5"], ["== 12", "== 1", "exists", "is_int"]),
+              ("parse_float(%s)", ['"1.5"', "2", '"x"'], ["== 1.5", "== 2.0", "exists", "is_float"]),
+              ("parse_boolean(%s)", ['"true"', "false", '"x"'], ["== true", "== false", "exists", "is_bool"]),
+              ("parse_string(%s)", ["12", "true", '"s"', "1.5"], ['== "12"', '== "true"', '== "s"', "is_string"]),
+              ("parse_char(%s)", ['"1"', "1", '"ab"'], ['== "1"', "exists"]),
+              ("json_parse(%s)", ['\'{"a": 1}\'', '"[1, 2]"', '"5"'], ["exists", "is_struct", "is_list", "== 5"]),
+              ("url_decode(%s)", ['"a%20b"', '"plain"'], ['== "a b"', '== "plain"', "is_string"])]
+        fdocs = json.dumps({"x": 1})
+        for fn, lits, cls in FN:
+            fname = fn.split("(")[0]
+            for lit in lits:
+                for cl in cls:
+                    forms = {"call": "rule pr(x) {\n    let n = %s\n    %%n %s\n}\nrule c {\n    pr(%s)\n}\n" % (fn % "%x", cl, lit),
+                             "inline": "rule c {\n    let n = %s\n    %%n %s\n}\n" % (fn % lit, cl),
+                             "rule-let": "rule c {\n    let x = %s\n    let n = %s\n    %%n %s\n}\n" % (lit, fn % "%x", cl),
+                             "file-let": "let x = %s\nlet n = %s\nrule c {\n    %%n %s\n}\n" % (lit, fn % "%x", cl)}
+                    got = {}
+                    for nm, text in forms.items():
+                        st, _ = status_map(ctx.w, text, fdocs)
+                        ctx.res.cases += 1
+                        got[nm] = st.get("c") if isinstance(st, dict) else ("crash" if st == "crash" else "ERR")
+                    ctx.res.counts["function-of-literal"] += 1
+                    if "crash" in got.values():
+                        ctx.inconclusive("function-of-literal-crash")
+                        continue
+                    for nm in ("inline", "rule-let", "file-let"):
+                        if got[nm] != got["call"]:
+                            ctx.violation("function-of-literal:%s:%s" % (fname, nm), "`%s` of the literal %s: the parameterised call gives %s, the %s form gives %s (clause `%%n %s`)" % (
+                                fname, lit, got["call"], nm, got[nm], cl), {"kind": "pair", "a": forms["call"], "b": forms[nm], "data": fdocs, "only": ["c"]})
+                    if len(set(got.values())) == 1:
+                        ctx.res.distinct.add(("function-of-literal", fname, got["call"]))
     # ---- every reference to a variable sees the same value (file / rule / block level; query, `some` query,
     #      filtered query, literal list and function-call bindings)
     n3 = 120 if ctx.quick else 4000
